@@ -57,10 +57,10 @@ def fuse_sections(code: list[L.LNode], name: str) -> list[L.LNode]:
                 output.extend(section.output)
                 annotations = section.annotations
 
-    # Remove duplicated inputs
-    input = list(set(input))
-    # Remove duplicated outputs
-    output = list(set(output))
+    # Remove duplicated inputs (keeping the order of first occurrence)
+    input = list(dict.fromkeys(input))
+    # Remove duplicated outputs (keeping the order of first occurrence)
+    output = list(dict.fromkeys(output))
 
     section = L.Section(name, statements, declarations, input, output, annotations)
 
